@@ -73,8 +73,12 @@ func (p *ECPoint) UnmarshalJSON(b []byte) error {
 	if err := json.Unmarshal(b, &aux); err != nil {
 		return err
 	}
-	p.X = aux.X.Int
-	p.Y = aux.Y.Int
+	if aux.X != nil {
+		p.X = aux.X.Int
+	}
+	if aux.Y != nil { // Not present for x25519
+		p.Y = aux.Y.Int
+	}
 	return nil
 }
 
